@@ -5,6 +5,9 @@
 // shared_ptr expose exactly the wrapped object.
 // Oracle: the built-in operator evaluated on plain integers (signed: in a wider type, the domain
 // [-128,127]^2 cannot overflow int; unsigned: in 64 bits reduced modulo 2^32).
+#include <algorithm>
+#include <limits>
+
 #include "c17_laws.hpp"
 
 #include <fcppt/hash.hpp>
@@ -163,13 +166,19 @@ void sint_unary(i64 a)
   }
 }
 
+// operands are enumerated from 0 outwards (0,-1,1,-2,...) so that the first failing pair is small
+i64 outward(i64 i) { return i % 2 == 0 ? i / 2 : -(i + 1) / 2; }
+i64 sint_limit() { return opts().thorough() ? 4000 : 128; }
+
 Reg const r_sint_pairs{
     "strong_typedef_int_pairs", Kind::exhaustive,
-    "all operand pairs in [-128,127]^2 for + - * & | ^, the six comparisons, the six assigning operators, unary - and ~, hashes; non-trivial when an operand is 0 or a bound of the domain, or the operands are equal, opposite or adjacent",
+    "all operand pairs in [-128,127]^2 (thorough: [-4000,3999]^2) for + - * & | ^, the six comparisons, the six assigning operators, unary - and ~, hashes; non-trivial when an operand is 0, -128 or 127, or the operands are equal, opposite or adjacent",
     [] {
-      for (i64 a = -128; a <= 127; ++a)
-        for (i64 b = -128; b <= 127; ++b)
+      i64 const n = 2 * sint_limit();
+      for (i64 i = 0; i < n; ++i)
+        for (i64 j = 0; j < n; ++j)
         {
+          i64 const a = outward(i), b = outward(j);
           cur2(a, b);
           sint_pair(a, b);
         }
@@ -181,10 +190,10 @@ Reg const r_sint_unary{
     "strong_typedef_int_unary", Kind::exhaustive,
     "every operand in [-128,127] for ++ and -- (pre and post), type_iso decorate/undecorate, get(); non-trivial at 0, +-1 and the bounds of the domain",
     [] {
-      for (i64 a = -128; a <= 127; ++a)
+      for (i64 i = 0; i < 2 * sint_limit(); ++i)
       {
-        cur1(a);
-        sint_unary(a);
+        cur1(outward(i));
+        sint_unary(outward(i));
       }
     },
     [](Ints const &c) { sint_unary(c.at(0)); },
@@ -288,12 +297,45 @@ Reg const r_suint_pairs{
     "strong_typedef_unsigned_pairs", Kind::exhaustive,
     "all pairs of wrap-around boundary values of unsigned (within 2 of 0, 2^7, 2^8, 2^15, 2^16, 2^30, 2^31, 3*2^30, 2^32 and bit patterns) for + - * unary- ++ -- & | ^ ~, comparisons, assigning operators, hashes; non-trivial when the exact result of +, - or * leaves [0,2^32), an operand is 0 or the operands are equal",
     [] {
-      for (std::uint32_t a : uvalues())
-        for (std::uint32_t b : uvalues())
+      std::vector<std::uint32_t> const full = lattice<std::uint32_t>();
+      std::vector<std::uint32_t> const &vals = opts().thorough() ? full : uvalues();
+      for (std::uint32_t a : vals)
+        for (std::uint32_t b : vals)
         {
           cur2(a, b);
           suint_pair(a, b);
         }
+    },
+    [](Ints const &c) { suint_pair(c.at(0), c.at(1)); },
+    [](Ints const &c) { return "strong_typedef<unsigned> operands " + std::to_string(c.at(0) & 0xffffffffLL) + ", " + std::to_string(c.at(1) & 0xffffffffLL); }};
+
+Reg const r_suint_random{
+    "strong_typedef_unsigned_random", Kind::random,
+    "seeded pairs of 32-bit values biased towards powers of two, small values and bit patterns, same checks as strong_typedef_unsigned_pairs; non-trivial when the exact result of +, - or * leaves [0,2^32), an operand is 0 or the operands are equal",
+    [] {
+      SplitMix r(opts().seed * 911 + static_cast<u64>(opts().shard));
+      u64 const n = opts().thorough() ? 3000000 : 300000;
+      auto pick = [&r]() -> u64 {
+        u64 const x = r.next();
+        switch (x & 7U)
+        {
+        case 0: return r.next() & 0xffffffffULL;
+        case 1: return (1ULL << (r.next() % 32)) + (r.next() % 5) - 2;
+        case 2: return ~((1ULL << (r.next() % 32)) + (r.next() % 5) - 2);
+        case 3: return r.next() % 70000;
+        case 4: return 0xffffffffULL - r.next() % 70000;
+        case 5: return (r.next() & 0xffffffffULL) >> (r.next() % 32);
+        case 6: return r.next() % 3;
+        default: return (r.next() & 0xffffffffULL) | 0x80000000ULL;
+        }
+      };
+      for (u64 i = 0; i < n; ++i)
+      {
+        i64 const a = static_cast<i64>(pick() & 0xffffffffULL);
+        i64 const b = r.next() % 8 == 0 ? a : static_cast<i64>(pick() & 0xffffffffULL);
+        cur2(a, b);
+        suint_pair(a, b);
+      }
     },
     [](Ints const &c) { suint_pair(c.at(0), c.at(1)); },
     [](Ints const &c) { return "strong_typedef<unsigned> operands " + std::to_string(c.at(0) & 0xffffffffLL) + ", " + std::to_string(c.at(1) & 0xffffffffLL); }};
